@@ -1144,6 +1144,41 @@ def check_geodesic(ck, rng, kx, ky, dn, shape, mode="plain"):
         ck.sample({"what": "geodesic", **wit(i), "got_hex": float(got[i]).hex()})
 
 
+def check_geodesic_broadcast(ck, rng, kx, ky, dn, sx, sy):
+    """Arguments of different batch shapes (one rotation against many, (3,1) against (1,4)): the loss is the angle of every broadcast
+    pair, 'mean' / 'sum' reduce over all of them, and it is symmetric in its arguments."""
+    dtype, u = lie.DT[dn], lie.u_of(lie.DT[dn])
+    nx, ny = int(np.prod(sx)) if sx else 1, int(np.prod(sy)) if sy else 1
+    x, _ = make_rot_pair(rng, kx, kx, nx, rng.uniform(0.2, 2.5, nx), dtype)
+    y, _ = make_rot_pair(rng, ky, ky, ny, rng.uniform(0.2, 2.5, ny), dtype)
+    xs = pp.LieTensor(x.tensor().reshape(tuple(sx) + (x.shape[-1],)), ltype=x.ltype)
+    ys = pp.LieTensor(y.tensor().reshape(tuple(sy) + (y.shape[-1],)), ltype=y.ltype)
+    Rx = rotation_of(kx, x.tensor().double().numpy()).reshape(tuple(sx) + (3, 3))
+    Ry = rotation_of(ky, y.tensor().double().numpy()).reshape(tuple(sy) + (3, 3))
+    bs = np.broadcast_shapes(tuple(sx), tuple(sy))
+    Rxb, Ryb = np.broadcast_to(Rx, bs + (3, 3)), np.broadcast_to(Ry, bs + (3, 3))
+    ref = f64(L.rotation_angle(np.matmul(Rxb, np.swapaxes(Ryb, -1, -2))))
+    tol = C_GEO * u / np.maximum(np.sin(ref), math.sqrt(u))
+    reg = f"{kx}-{ky}/{dn}/broadcast"
+    wit = {"kinds": [kx, ky], "dtype": dn, "shape_x": list(sx), "shape_y": list(sy)}
+    for order, (a, b) in (("xy", (xs, ys)), ("yx", (ys, xs))):
+        for red, want in (("none", ref), ("mean", ref.mean()), ("sum", ref.sum())):
+            ok, r = ck.call("geodesic.reduction", f"{reg}/{red}", "geodesic_loss", pp.geodesic_loss, a, b, red, witness=dict(wit, order=order))
+            ck.count("geodesic.reduction", f"{reg}/{red}", key=(kx, ky, dn, tuple(sx), tuple(sy), red, order))
+            if not ok:
+                continue
+            got = r.detach().double().numpy()
+            if not ck.check(tuple(got.shape) == (tuple(bs) if red == "none" else ()), "geodesic.reduction", f"{reg}/{red}", "geodesic_loss",
+                            "output_shape_or_dtype", dict(wit, order=order, got_shape=list(got.shape))):
+                continue
+            n_ = ref.size
+            t_ = tol if red == "none" else (float(tol.mean()) if red == "mean" else float(tol.sum())) + 4 * u * abs(float(np.sum(want))) * n_
+            ck.ratio("geodesic.reduction", f"{reg}/{red}", float(np.abs(got - want).max() / np.min(t_)) if red == "none" else abs(float(got) - float(want)) / t_,
+                     1.0, "geodesic_loss", f"reduction_{red}_wrong_for_broadcast_arguments" if red != "none" else "not_the_rotation_angle",
+                     dict(wit, order=order, got=got.tolist() if got.size <= 12 else None, expected=np.asarray(want).tolist() if np.size(want) <= 12 else None))
+    ck.mark("geodesic/broadcast")
+
+
 def run_geodesic(ck):
     rng = ck.rng("geodesic")
     thorough = ck.tier == "thorough"
@@ -1160,6 +1195,12 @@ def run_geodesic(ck):
                 reps = (6 if thorough else 2) if si == 0 else 1
                 for r_ in range(reps):
                     check_geodesic(ck, rng, kx, ky, dn, shape, GEO_MODES[(case + r_) % len(GEO_MODES)])
+    if ck.shard == 0:
+        for (kx, ky) in (("SO3", "SO3"), ("SE3", "SE3"), ("SE3", "SO3"), ("so3", "so3"), ("Sim3", "RxSO3")):
+            for dn in ("f64", "f32"):
+                for (sx, sy) in (((), (4,)), ((1,), (5,)), ((3, 1), (1, 4)), ((2, 3), (3,)), ((4,), ())):
+                    check_geodesic_broadcast(ck, rng, kx, ky, dn, sx, sy)
+    ck.require("geodesic/broadcast")
     ck.require(*["geodesic/mode:" + m_ for m_ in GEO_MODES[:4]], "geodesic/mode:no_grad-inner")
     ck.require("geodesic/angle:0", "geodesic/angle:(0,sqrt(u)]", "geodesic/angle:mid", "geodesic/angle:[pi-sqrt(u),pi]")
     ck.floor("geodesic.angle", 1000)
